@@ -115,7 +115,8 @@ def render_group(g, pres):
 def _render_group(g, pres):
     lines = []
     Th = pres['T']
-    lines.append('T_ref: %s' % present_T(g['T_ref'], Th))
+    if not pres.get('omit_T_ref'):
+        lines.append('T_ref: %s' % present_T(g['T_ref'], Th))
     if g.get('H') is not None:
         how = pres['H']
         lines.append('%s: %s' % ('ND_H_ref' if how[0] == 'nd' else 'H_ref', present_value(g['H'], 'H', g['T_ref'], how)))
@@ -157,7 +158,7 @@ def render_uq(rmse, basis, mat, dof=10):
     out.append('    InvCovMat:')
     out.append("        'groups': [%s]" % ', '.join(yaml_key(b) for b in basis))
     out.append("        'mat':")
-    out.append('           [' + ',\n            '.join('[' + ','.join(repr(float(x)) for x in row) + ']' for row in mat) + ']')
+    out.append('           [' + ',\n            '.join('[' + ','.join((repr(int(x)) if isinstance(x, int) and not isinstance(x, bool) else repr(float(x))) for x in row) + ']' for row in mat) + ']')
     return '\n'.join(out) + '\n'
 
 
